@@ -3,8 +3,10 @@
 #ifndef VF_GEOM_SPEC_H
 #define VF_GEOM_SPEC_H
 #ifdef VF_CBMC
-#define vf_cos(a) __CPROVER_uninterpreted_cos(a)
-#define vf_sin(a) __CPROVER_uninterpreted_sin(a)
+uint64_t __CPROVER_uninterpreted_cos(uint64_t);
+uint64_t __CPROVER_uninterpreted_sin(uint64_t);
+static inline double vf_cos(double a) { union { double d; uint64_t u; } p, q; p.d = a; q.u = __CPROVER_uninterpreted_cos(p.u); return q.d; }
+static inline double vf_sin(double a) { union { double d; uint64_t u; } p, q; p.d = a; q.u = __CPROVER_uninterpreted_sin(p.u); return q.d; }
 #else
 #define vf_cos(a) cos(a)
 #define vf_sin(a) sin(a)
@@ -19,6 +21,8 @@ static inline uint64_t spec_bits(double d) { union { double d; uint64_t u; } p; 
 double G_ex, G_ey;   /* image of vertex GK under the map, computed once at entry (invariants may not call) */
 uint64_t GW_minx, GW_maxx, GW_miny, GW_maxy;   /* ghost witnesses: index of the vertex attaining each side */
 double *G_pc;          /* entry value of the coordinate pointer a loop advances */
+double G_a, G_b, G_c, G_d;   /* entry values of lattice vector components / of coordinate GK */
+uint64_t G_t0;               /* entry value of a kind tag */
 double G_ca, G_sa;   /* cos / sin of the angle argument (uninterpreted), taken at entry */
 /* scale about a centre: (p - c) * s + c */
 #define S_AX(p, c, s) VF_FADD(VF_FMUL(VF_FSUB(p, c), s), c)
